@@ -246,6 +246,57 @@ fn run_sequences(seed: u64, n: u64, out: &mut Out) {
 	}
 }
 
+/// `append_or_new` on valid and invalid starting buffers: accept/reject and resulting bytes.
+fn run_appends(seed: u64, n: u64, out: &mut Out) {
+	use parity_scale_codec::EncodeAppend;
+	let mut rng = Rng::new(seed ^ 0xa99e);
+	let fixed: Vec<Vec<u8>> = vec![
+		vec![],
+		vec![0x00],
+		vec![0x01],
+		vec![0x01, 0x00],
+		vec![0x02, 0x00, 0x01],
+		vec![0x03, 0x05, 0x00, 0x00, 0x00],
+		vec![0x07, 0x05, 0x00, 0x00, 0x40, 0x01],
+		vec![0xff, 1, 2, 3, 4, 5, 6, 7, 8],
+		vec![0xfd, 0x00],
+		vec![0x13, 0xff, 0xff, 0xff, 0xff, 0xff, 0xff, 0xff, 0xff],
+	];
+	for i in 0..n {
+		let start: Vec<u8> = if (i as usize) < fixed.len() {
+			fixed[i as usize].clone()
+		} else if i % 3 == 0 {
+			gen::random_bytes(&mut rng, 8)
+		} else {
+			let k = rng.usize_below(70);
+			(0..k).map(|x| x as u32).collect::<Vec<u32>>().encode()
+		};
+		let batch: Vec<u32> = (0..rng.usize_below(5)).map(|x| x as u32 * 7).collect();
+		let r1 = <Vec<u32> as EncodeAppend>::append_or_new(start.clone(), &batch);
+		let r2 = <VecDeque<u32> as EncodeAppend>::append_or_new(start.clone(), batch.iter());
+		let d = hash64(&(r1.as_ref().ok(), r2.as_ref().ok(), r1.is_ok(), r2.is_ok()));
+		let _ = writeln!(out.log, "append\tenc\t{i}\t{d:016x}");
+		out.cases += 1;
+	}
+}
+
+/// Bit sequences at the 2^29 limit with the data really present: the count alone decides.
+#[cfg(feature = "bit-vec")]
+fn run_bit_limit(out: &mut Out) {
+	use bitvec::prelude::*;
+	for (i, count) in [(1u128 << 29) - 1, 1u128 << 29, (1u128 << 29) + 64].into_iter().enumerate() {
+		let mut b = Vec::with_capacity((1 << 26) + 32);
+		compact_encode(count, &mut b);
+		b.resize(b.len() + (1 << 26) + 16, 0);
+		let r = <BitVec<u8, Lsb0>>::decode(&mut &b[..]);
+		let _ = writeln!(out.log, "bit-limit\tdec\t{i}\t{}", match r {
+			Ok(v) => format!("ok:{}", v.len()),
+			Err(_) => "err".to_string(),
+		});
+		out.cases += 1;
+	}
+}
+
 fn main() {
 	let args: Vec<String> = std::env::args().collect();
 	let get = |n: &str| args.iter().position(|a| a == n).and_then(|i| args.get(i + 1).cloned());
@@ -271,6 +322,9 @@ fn main() {
 	);
 	t!(Empty32, Vec<Empty32>, Option<Vec<Empty32>>, (u8, Vec<Empty32>, u8));
 	run_sequences(seed, nvals * 20, &mut out);
+	run_appends(seed, nvals * 10, &mut out);
+	#[cfg(feature = "bit-vec")]
+	run_bit_limit(&mut out);
 	#[cfg(feature = "bit-vec")]
 	{
 		use bitvec::prelude::*;
